@@ -167,8 +167,8 @@ def print_experiments(block, experiments):
         given a ``name``, each experiment's output is divided into sections
         labeled by that name (one section per diagonal).
     """
-    # Restore continuous factors for printing trials
-    block.restore_continuous()
+    # Continuous factors are printed through `block.orig_design` (the design
+    # as the user gave it); the block itself must not be changed by printing.
 
     ls_name = None
     ls_dlen = 0
